@@ -12,36 +12,38 @@ Variable waits : E -> list kp -> bool.
 Variable eff : bid -> list kp -> E -> E * option res.
 Variable is_cprh : bid -> bool.
 Variable cpr_lookup : E -> option bid.
+Variable feeds : bid -> list kp -> E -> list kp.
 Variable restart : E -> E.
 Variable pfeed : str -> PS -> PS * list kp.
 Variable pflush : PS -> PS * list kp.
 Variable res_eof : res.
 
 Notation sys := (sys E bid res PS).
-Notation run := (@run E bid res PS lookup lookup_scan waits eff is_cprh cpr_lookup restart pfeed pflush res_eof).
-Notation inv_run0 := (@inv_run E bid res PS lookup lookup_scan waits eff is_cprh cpr_lookup restart pfeed pflush res_eof).
+Notation run := (@run E bid res PS lookup lookup_scan waits eff is_cprh cpr_lookup feeds restart pfeed pflush res_eof).
+Notation inv_run0 := (@inv_run E bid res PS lookup lookup_scan waits eff is_cprh cpr_lookup feeds restart pfeed pflush res_eof).
+Definition no_feeds : Prop := forall b ks e, feeds b ks e = [].
 
-Lemma conservation ls e p r :
+Lemma conservation (Hnf : no_feeds) ls e p r :
   let s := run ls (@init E bid res PS e p r) in
   nc (logged (co s)) ++ nc (kbuf (co s)) ++ nc (ikeys (store s)) ++ nc (ikeys (queue s)) = nc (decoded s).
 Proof.
-  intros s. destruct (inv_run0 ls (@init E bid res PS e p r) (inv_init E bid res PS e p r)) as (H & _ & _ & _ & P).
+  intros s. destruct (inv_run0 Hnf ls (@init E bid res PS e p r) (inv_init E bid res PS e p r)) as (H & _ & _ & _ & P).
   fold s in H, P. unfold acc in H. rewrite P, app_nil_r, nc_app, <- app_assoc in H. exact H.
 Qed.
 
 Lemma cpr_never_stored ls e p r :
   let s := run ls (@init E bid res PS e p r) in Forall (fun i => item_is_cpr i = false) (store s).
 Proof.
-  intros s. destruct (inv_run0 ls (@init E bid res PS e p r) (inv_init E bid res PS e p r)) as (_ & _ & _ & H & _). exact H.
+  exact (@C17_Silent.cpr_never_stored_all E bid res PS lookup lookup_scan waits eff is_cprh cpr_lookup feeds restart pfeed pflush res_eof ls e p r).
 Qed.
 
 Lemma fuel_suffices ls e p r : oof (co (run ls (@init E bid res PS e p r))) = false.
 Proof.
-  rewrite (@run_oof E bid res PS lookup lookup_scan waits eff is_cprh cpr_lookup restart pfeed pflush res_eof). reflexivity.
+  rewrite (@run_oof E bid res PS lookup lookup_scan waits eff is_cprh cpr_lookup feeds restart pfeed pflush res_eof). reflexivity.
 Qed.
 
 Lemma nothing_after_accept :
-  cpr_silent eff cpr_lookup ->
+  cpr_silent eff cpr_lookup feeds ->
   forall ls e p r, ~ In LClose ls ->
   let s := run ls (@init E bid res PS e p r) in
   Forall ok_ev (rlog (co s)) /\ cph (co s) <> CBroken res /\
@@ -49,27 +51,28 @@ Lemma nothing_after_accept :
   Forall nf (store s) /\ Forall nf (queue s).
 Proof.
   intros HS ls e p r NI s.
-  destruct (@Js_run E bid res PS lookup lookup_scan waits eff is_cprh cpr_lookup restart pfeed pflush res_eof HS ls
+  destruct (@Js_run E bid res PS lookup lookup_scan waits eff is_cprh cpr_lookup feeds restart pfeed pflush res_eof HS ls
               (@init E bid res PS e p r) NI (Js_init E bid res PS e p r)) as (((NB & LK & OK) & _) & _ & _ & F & G & _).
   auto.
 Qed.
 
 (* delivering a report changes nothing the dispatch or the handlers look at *)
 Lemma cpr_transparent :
-  cpr_silent eff cpr_lookup ->
+  cpr_silent eff cpr_lookup feeds ->
   forall (c : core E bid res) k, is_cpr k = true ->
-  let c' := deliver lookup lookup_scan waits eff is_cprh cpr_lookup (IKey k) c in
+  let c' := deliver lookup lookup_scan waits eff is_cprh cpr_lookup feeds (IKey k) c in
   est c' = est c /\ kbuf c' = kbuf c /\ cph c' = cph c /\ pb c' = pb c.
 Proof.
   intros HS c k CK. cbn [deliver]. rewrite CK.
-  destruct (@handle_cpr_eq E bid res eff is_cprh cpr_lookup HS k c) as (A & B & C & D & _). auto.
+  destruct (@handle_cpr_eq E bid res eff is_cprh cpr_lookup feeds HS k c) as (A & B & C & D & _). auto.
 Qed.
 
 Lemma cpr_silent_log ls e p r :
   let s := run ls (@init E bid res PS e p r) in
   Forall (sil_ev cpr_lookup) (rlog (co s)) /\ noc (kbuf (co s)).
 Proof.
-  exact (@C17_Silent.cpr_silent_log E bid res PS lookup lookup_scan waits eff is_cprh cpr_lookup restart pfeed pflush res_eof ls e p r).
+  exact (@C17_Silent.cpr_silent_log E bid res PS lookup lookup_scan waits eff is_cprh cpr_lookup feeds restart pfeed pflush res_eof ls e p r).
 Qed.
 
 End P.
+Arguments no_feeds {E bid} feeds.
